@@ -260,4 +260,47 @@ W_RootChildrenWaived == (SaneButRootChildren(T) /\ RootHasNoParent(T)) => <>Done
 W_Backtracked  == ~(Done /\ Cardinality(out) >= 2)
 W_PreboundUsed == ~(Done /\ c0 # EmptyTCtx /\ out # {})
 W_DeepYield    == ~(Done /\ \E r \in out : DOMAIN r[2] # DOMAIN c0)
+
+-----------------------------------------------------------------------------
+(* Part 4 (C13): the signing relation between NAME PATTERNS (what becomes a node of the tree), as opposed to
+   the relation between rule identifiers (Lvs!SignAcyclic).
+
+   Several rules - with different identifiers, or several definitions of one identifier - may expand to the very same
+   name pattern: `#root: "net"/s/"KEY"/k` next to `#cert: #site/"KEY"/k` with `#site: "net"/s`.  Packets named like
+   that are then packets of all these rules at once, whatever the rule is called, so a loop of "is signed by" can close
+   through such a pattern although no rule IDENTIFIER is on a loop (#a: "x"/p <= #c, #b: "x"/p, #c: "y"/r <= #b).
+   C13: "... raises the documented schema error whenever the text has ... cyclic signing relations" and "... in which no
+   name pattern is, directly or transitively, its own signer".
+
+   Interpretation (least obligation).  Lvs!NoSelfSigner is the COARSE reading (a schema with a coarse loop carries no
+   obligation to be accepted).  For the obligation to be REFUSED the reading is the narrowest one: two expanded names
+   are the same name pattern only when that is beyond doubt -
+     - the same items at every position: equal literals, named patterns with equal identifiers, a temporary pattern
+       only the SAME occurrence (same definition, same position, same reference path: in practice two alternatives of
+       one definition); and
+     - every pattern carries the same constraints, option for option, and no pattern carries more than one constraint
+       (with two constraints on one pattern the two texts may list them in different orders; they mean the same, but
+       nothing is demanded of them here).
+   An expanded name in which some pattern carries several constraints is a pattern of its own (PatKey: tagged with
+   its definition di) - triage round 11: `#r3: #r2/"y" & {a: "x"}` with `#r2: "y"/a & {a: $in("u")}` next to
+   `#zs: "y"/a/"y" & {a: $in("u"), a: "x"}`, #r3 <= #zs: the library lays the two out as different nodes (it compares the
+   constraint lists in the order in which ITS expansion collects them) and accepts; not demanded otherwise here. *)
+ConsOfItem(ch, j) == IF ch.items[j].k = "x" THEN SelectSeq(ch.cons, LAMBDA c : c.var = ch.items[j].var) ELSE <<>>
+PlainCons(ch)  == \A j \in 1..Len(ch.items) : Len(ConsOfItem(ch, j)) <= 1
+PatKey(di, ch) == IF PlainCons(ch)
+                  THEN <<"p", ch.items, [j \in 1..Len(ch.items) |-> [q \in 1..Len(ConsOfItem(ch, j)) |-> ConsOfItem(ch, j)[q].opts]]>>
+                  ELSE <<"u", di, ch>>
+PatSignEdges(S, CH) ==
+  UNION {UNION {UNION {{<<PatKey(i, a), PatKey(dk, b)>> : a \in CH[i], b \in CH[dk]} : dk \in DefsOf(S, S.rules[i].sign[j])}
+                : j \in 1..Len(S.rules[i].sign)} : i \in 1..NRules(S)}
+(* some name pattern is, directly or transitively, its own signer - beyond doubt.  Only called on schemas with
+   WellFormed (CH = AllChains(S)).  PatternIsOwnSigner => ~NoSelfSigner (Shape is a function of PatKey's items). *)
+PatternIsOwnSigner(S, CH) == LET E == PatSignEdges(S, CH) IN HasCycle(E, {e[1] : e \in E} \cup {e[2] : e \in E})
+
+(* The same question asked of a MODEL the library produced: the signing relation between its nodes.  A model that
+   compile_lvs + Checker hand out for a source text is the library's own statement of which name patterns the text
+   has and who signs whom; if that relation loops, the text had a cyclic signing relation and was not refused.
+   (Not a sanity rule of the binary format - see Reach above; used for models compiled from text only.) *)
+NodeSignEdges(M) == UNION {{<<i, NodeAt(M, i).sign[j]>> : j \in 1..Len(NodeAt(M, i).sign)} : i \in Reach(M)}
+NodeSignCycle(M) == LET E == NodeSignEdges(M) IN HasCycle(E, {e[1] : e \in E} \cup {e[2] : e \in E})
 =============================================================================
